@@ -409,6 +409,7 @@ import codecmon  # noqa: E402,F401
 import ecdsamon  # noqa: E402,F401
 import blsmon  # noqa: E402,F401
 import h2cmon  # noqa: E402,F401
+import pairmon  # noqa: E402,F401
 
 
 # ------------------------------------------------------------------------------------------
